@@ -19,7 +19,8 @@ YTEXT = ['message: "x"', 'severity: fail', 'k: v', '- item', 'got: 1', '# not a 
 # lines that are not TAP ('okay' / 'ok1' are NOT in this list: the implementation's regex has no word
 # boundary after ok and reads them as test lines named 'ay' / numbered 1; the TAP text does not settle it,
 # so they are left to the differential part, via the corpus)
-JUNK = ['hello', 'OK 1', 'Not ok', '1.2', '1..', 'TAP version', 'Bail out', 'tap version 13',
+JUNK = ['pragma +strict', 'pragma -strict', '    ok 1 - nested', '    1..2', '    not ok 2', 'TAP version 14',
+        '    # Subtest: inner', '}', 'hello', 'OK 1', 'Not ok', '1.2', '1..', 'TAP version', 'Bail out', 'tap version 13',
         'PASS: x', '---', '...', 'no k', ' ok 1', '  1..2', 'nok', 'not  ok', 'o k', 'Ok']
 
 
@@ -123,6 +124,13 @@ def gen_abs_stream(rng, maxlen=40):
             out.append(('diag', rng.choice([' a diagnostic', '', ' 1..3', 'ok 1', ' Bail out!'])))
         elif r < 0.5:
             out.append(('blank',))
+        elif r < 0.54:
+            # things that only LOOK like YAML delimiters (no indentation): not TAP, nothing is swallowed
+            out.append(('junk', rng.choice(['---', '--- #', '---x', '...', '... '])))
+            if rng.random() < 0.7:
+                for j in range(rng.randint(1, 2)):
+                    out.append(gen_test(rng, None))
+                out.append(('yaml_end', rng.choice(INDENTS)))
         if rng.random() < fr / 2:
             out.append(rng.choice([('junk', rng.choice(JUNK)), ('bail', rng.choice(['', 'stop now', 'é'])),
                                    ('version', 13), plan, ('yaml_line', '  ', 'stray: 1'), ('yaml_end', '  '),
@@ -150,6 +158,17 @@ FORMS = [(('test', True, None, '', None, ''), 'ok'),
          (('diag', ' d'), '# d'),
          (('bail', 'stop'), 'Bail out! stop')]
 
+ABS_CORPUS = [
+    [('version', 13), ('test', True, 1, '', None, ''), ('junk', '---'), ('test', False, 2, 'swallowed?', None, ''), ('yaml_end', '  '), ('plan', 2, None, '')],
+    [('version', 13), ('test', True, None, 'a', None, ''), ('junk', '---'), ('bail', 'stop'), ('yaml_end', ' ')],
+    [('version', 13), ('test', True, None, 'a', 'skip', 'x'), ('yaml_start', '  '), ('yaml_line', '  ', 'k: v'), ('yaml_end', '  '), ('plan', 1, None, '')],
+    [('version', 13), ('test', True, None, 'a', None, ''), ('yaml_start', '  '), ('yaml_line', '  ', 'ok 2'), ('yaml_line', '  ', '1..7'), ('yaml_line', '  ', 'Bail out!'), ('yaml_end', '    '), ('test', True, 2, 'b', None, '')],
+    [('test', True, None, 'a', None, ''), ('yaml_start', '  '), ('yaml_end', '  '), ('plan', 1, None, '')],
+    [('version', 14), ('plan', 1, None, ''), ('junk', '# Subtest: inner'), ('junk', '    1..2'), ('junk', '    ok 1'), ('junk', '    not ok 2'), ('test', False, 1, '- inner', None, '')],
+    [('test', True, 0, 'zero', None, '')], [('plan', 2, None, ''), ('test', True, 1, '', None, ''), ('test', True, 0, '', None, '')],
+    [('test', True, None, 'only skip', 'skip', '')], [('plan', 0, 'skip', 'nothing to do')], [],
+]
+
 CORPUS = [
     ['ok'], ['not ok'], ['ok 1 abc'], ['1..0'], ['1..0 # skipped for some reason'], ['1..1 # skipped for some reason', 'ok 1'],
     ['1..1 # todo not supported here', 'ok 1'], ['ok 2'], ['1..2', 'ok 2', 'ok 1'], ['1..3', 'ok 2', 'ok', 'ok 1'],
@@ -168,7 +187,11 @@ CORPUS = [
     ['  ok 1', '\tok', 'ok\x0c7'], ['ok \x1f 7 \x85 n\xa0 # skip\u2028why\u3000'], ['ok 00012', 'ok 13'], ['1..007', 'ok 7'],
     ['TAP version 013', 'ok', '\t---', '\t...'], ['TAP version 13 extra', 'ok', '  --- # x', '  x', '   ... y'],
     ['TAP version 13', 'ok', '  ---', '', '  ...'], ['TAP version 13', 'ok', '  ---', '  ---', '  ...', '  ...'],
-    ['TAP version 13', 'ok', '\n---', '\n...'], ['TAP version 13', 'ok', ' \t---', ' \tx', ' ...'],
+    ['TAP version 13', 'ok', '\n---', '\n...'],
+    # TAP 14 (not implemented by meson: subtests and pragmas are unknown lines, the parent test line counts)
+    ['TAP version 14', '1..1', '# Subtest: inner', '    1..2', '    ok 1', '    not ok 2', 'not ok 1 - inner'],
+    ['TAP version 14', 'pragma +strict', 'ok 1', '    ---', '    x: y', '    ...', '1..1'],
+    ['TAP version 14', 'ok 1 - outer', '  ---', '  ...', '    ok 1 - nested after yaml', '1..1'], ['TAP version 13', 'ok', ' \t---', ' \tx', ' ...'],
 ]
 
 DIGITS = lambda k, c='9': c * k
@@ -178,6 +201,9 @@ PATHOLOGICAL = [
     ['ok', 'TAP version ' + DIGITS(4301)], ['ok ' + DIGITS(5000, '0')], ['ok ' + DIGITS(4300, '0') + '1'],
     ['# ' + DIGITS(5000)], ['ok n' + DIGITS(5000)], ['TAP version 13', 'ok', '  ---', '  ' + DIGITS(5000), '  ...'],
     ['1..5', 'ok ' + DIGITS(4300), 'ok'], ['1..5', 'ok ' + DIGITS(4300), 'ok named'], ['Bail out!', 'ok ' + DIGITS(4300), 'ok'],
+    ['ok ' + DIGITS(100), 'ok'], ['ok ' + DIGITS(101), 'ok'], ['1..' + DIGITS(101), 'ok'], ['1..' + DIGITS(100, '0') + '1', 'ok'],
+    ['TAP version ' + DIGITS(101, '1'), 'ok', '  ---'], ['TAP version ' + DIGITS(100, '0') + '13', 'ok', '  ---'], ['1..2', '1..' + DIGITS(101)],
+    ['1..' + DIGITS(101), '1..1', 'ok'], ['ok 1', 'ok ' + DIGITS(200), 'ok 3', '1..3'],
     ['ok 1 ' + DIGITS(4301)], ['x' * 5000], ['ok ' + 'n' * 5000 + ' # SKIP ' + 'y' * 5000],
 ]
 
@@ -318,6 +344,9 @@ def run(ctx):
     for ls in CORPUS:
         items.append({'lines': ls, 'rcs': [0, 1], 'src': 'corpus'})
         items.append({'lines': [l + '\n' for l in ls], 'rcs': [0], 'src': 'corpus'})
+    for ab in ABS_CORPUS:
+        for nl in ('', '\n'):
+            items.append({'lines': [render(a, rng) + nl for a in ab], 'abs': ab, 'rcs': [0, 1, -9], 'src': 'corpus'})
     for ls in PATHOLOGICAL:
         items.append({'lines': ls, 'rcs': [0, 1] if len(ls) == 3 else [0], 'src': 'pathological'})
     # exhaustive: every sequence of at most L of the 14 line forms
@@ -353,6 +382,16 @@ def run(ctx):
             ls = [rng.choice(['ok ', 'not ok ', '1..', 'ok 1 # ', 'Bail out!', 'TAP version ', '  ']) + l if rng.random() < 0.4 else l for l in ls]
         items.append({'lines': ls, 'rcs': [0] if rng.random() < 0.1 else [], 'src': 'text'})
     items = [it for it in items if ok_for_wire(it['lines'])]
+    # Streams with a digit run of more than 100 characters are where the parser with the fix
+    # pending/C18-int-max-str-digits.diff (which the model describes) and the unpatched parser differ;
+    # until the fix is applied they are only generated with VERIF_C18_BIGNUM=1.
+    import re as _re0
+    BIG = os.environ.get('VERIF_C18_BIGNUM') == '1'
+    longrun = lambda ls: any(len(x) > 100 for l in ls for x in _re0.findall('[0-9]+', l))
+    nbig = sum(1 for it in items if longrun(it['lines']))
+    if not BIG:
+        items = [it for it in items if not longrun(it['lines'])]
+    ctx.extra['bignum_scenario'] = {'enabled': BIG, 'streams_with_a_digit_run_over_100': nbig}
 
     # -------- single lines for the scanners (regex level)
     single = []
@@ -371,6 +410,8 @@ def run(ctx):
         for w in itertools.product(['o', 'k', 'n', 't', ' ', '1', '#', '.', '-', '\t'], repeat=5 if thorough else 4):
             seen.add(''.join(w))
         for l in sorted(seen):
+            if not BIG and longrun([l]):
+                continue
             single.append(('classify', [l]))
             if l[:1].isspace():
                 single.append(('ystart', [l]))
@@ -459,6 +500,12 @@ def run(ctx):
             ctx.violation(ident_of(f), 'property clause "%s" fails on the implementation: %s' % (f['kind'], json.dumps(f)[:1500]),
                           {'item': item, 'failure': f})
     ctx.extra['oracle_streams'] = len(items)
+    kinds = {}
+    for it in items:
+        for a in it.get('abs', []):
+            k = a[0] + (':' + str(a[4]) if a[0] == 'test' and a[4] else '') + (':numbered' if a[0] == 'test' and a[2] is not None else '')
+            kinds[k] = kinds.get(k, 0) + 1
+    ctx.extra['abstract_line_kinds_generated'] = kinds
     ctx.extra['oracle_clause_failures'] = nfail
 
     # -------- `meson test` on a generated project: the result reported for a protocol:'tap' test
